@@ -1,6 +1,6 @@
 (** Property C12 - files written by the released format stay readable (format and hash stability). *)
 From Aby Require Import Base Vu64 Vu64_proofs Hash Golden_hash KeyTypes Consts Sizing Alloc AllocInv Htx Store Spec
-  Refine Refine_all Structure Layout.
+  Refine Refine_all Structure Layout Load Load_all Golden_lib Golden Golden_proofs.
 
 (** placement: the record of a key is found on the chain of bucket [hash_value k mod n]; [hash_value]
     is a closed function of the key bytes alone and the bucket a function of (key bytes, table size):
@@ -36,6 +36,22 @@ Theorem C12_updates_from_any_consistent_state : forall s m ops,
   exists s', store_run s ops = Ok (s', snd (spec_run m ops)) /\ Inv s' /\
              represents s' (fst (spec_run m ops)) /\ kt s' = kt s /\ nb (hx s') = nb (hx s).
 Proof. exact run_refines. Qed.
+
+(** THE GOLDEN IMAGES: for each of the 15 directories written by the pinned release (5 key types x
+    3 histories; bytes committed in golden/ and as hex in Golden.v) the committed bytes (a) are
+    exactly [render] of the state the model reaches on the committed history (kernel computation,
+    [golden_ok]), a state with the invariant; (b) are read back by the independent reader [load]
+    to that state; (c) hold, as the reader recovers them, exactly the ideal map of the history, which
+    contains every committed expected entry and has their number of entries *)
+Theorem C12_golden_images : forall g, In g all_golden ->
+  exists s m s' l, Inv s /\ represents s m /\ m = fst (spec_run ∅ (g_ops g)) /\ render s = Ok (g_imgs g) /\
+    load (g_kt g) (g_imgs g) = Ok s' /\ hx s' = hx s /\ keyf s' = keyf s /\ valf s' = valf s /\
+    contents s' = Ok l /\ l ≡ₚ map_to_list m /\
+    (forall k v, In (k, v) (g_expected g) -> m !! k = Some v) /\ size m = length (g_expected g).
+Proof. exact all_golden_read_back. Qed.
+
+Example C12_golden_count : length all_golden = 15%nat.
+Proof. reflexivity. Qed.
 
 Example C12_nonvacuous : hash_value [97] = 234187188307230837 /\ hash_value [] = 0 /\ length frozen_vectors = 256%nat.
 Proof. vm_compute. repeat split; reflexivity. Qed.
